@@ -98,11 +98,10 @@ theorem setParam_inv {g : Graph V} (hinv : Inv F g) {p : Nat} {x : V} {n : Nat} 
   · intro k hk hr; exact bump_up hinv p _ hwf' hv hk hr
   · intro s hs; cases hs
   · intro s rv hs; cases hs
-  · intro s hs; cases hs
 
 /-- any change of the wiring of struct node `i` that raises the flag and keeps the graph acyclic -/
 theorem rewire_inv {g : Graph V} (hinv : Inv F g) {i : Nat} {s s' : SNode V} (hs : g i = .struct s)
-    (hflag : s'.flag = true) (hver : s'.version = s.version) (hreads : s'.reads = s.reads)
+    (hflag : s'.flag = true) (hver : s'.version = s.version)
     (hac : Acyclic F (g.set i (.struct s'))) :
     Inv F (g.set i (.struct s')) := by
   obtain ⟨rank', hwf'⟩ := hac
@@ -117,7 +116,6 @@ theorem rewire_inv {g : Graph V} (hinv : Inv F g) {i : Nat} {s s' : SNode V} (hs
   · intro k _ hr; exact Outdated_of_reach hwf' hr hout
   · intro t _ ho; rw [hout] at ho; cases ho
   · intro t rv ht _ hf; cases ht; rw [hflag] at hf; cases hf
-  · intro t ht; cases ht; rw [hreads]; exact hinv.readsAll i s hs
 
 /-- the node an operation is addressed to -/
 def opNode : Op V → Nat
@@ -186,7 +184,7 @@ theorem step_inv {g : Graph V} (hinv : Inv F g) (op : Op V) (hac : Acyclic F (st
   generalize step F g op = r at h hac
   cases h with
   | setParam hp => exact setParam_inv hinv hp _
-  | rewire _ _ _ hs hf hv _ hr => exact rewire_inv hinv hs hf hv hr hac
+  | rewire _ _ _ hs hf hv _ _ => exact rewire_inv hinv hs hf hv hac
   | read => exact (Eval_ok _ g hinv).inv
   | rejected => exact hinv
 
@@ -195,12 +193,37 @@ theorem run_inv {g : Graph V} (hinv : Inv F g) (ops : List (Op V)) (hv : Valid F
   | nil => exact hinv
   | cons op ops ih => exact ih (step_inv hinv op hv.1) hv.2
 
+/-- no call changes which inputs a processor pulls -/
+theorem step_readsAll {g : Graph V} (hra : ReadsAll g) (op : Op V) : ReadsAll (step F g op).1 := by
+  have h := step_kind F g op
+  generalize step F g op = r at h
+  cases h with
+  | @setParam p x n v hp =>
+    intro i s hs
+    dsimp only at hs
+    by_cases hi : i = p
+    · subst hi; rw [Graph.set_same] at hs; cases hs
+    · rw [Graph.set_ne _ _ hi] at hs; exact hra i s hs
+  | @rewire op i s s' _ _ _ hs _ _ _ hr =>
+    intro j t ht
+    dsimp only at ht
+    by_cases hj : j = i
+    · subst hj; rw [Graph.set_same] at ht; cases ht; rw [hr]; exact hra j s hs
+    · rw [Graph.set_ne _ _ hj] at ht; exact hra j t ht
+  | @read i => exact hra.of_static (Eval_static F g i)
+  | rejected => exact hra
+
+theorem run_readsAll {g : Graph V} (hra : ReadsAll g) (ops : List (Op V)) : ReadsAll (run F g ops).1 := by
+  induction ops generalizing g with
+  | nil => exact hra
+  | cons op ops ih => exact ih (step_readsAll hra op)
+
 /-- the state before any evaluation: acyclic, and no struct node has been processed -/
 def Init (F : Nat) (g : Graph V) : Prop := Acyclic F g ∧ ∀ i s, g i = .struct s → s.remembered = none
 
-theorem Init.inv {g : Graph V} (h : Init F g) (hra : ReadsAll g) : Inv F g := by
+theorem Init.inv {g : Graph V} (h : Init F g) : Inv F g := by
   obtain ⟨rank, hwf⟩ := h.1
-  refine ⟨h.1, hra, ?_, ?_⟩
+  refine ⟨h.1, ?_, ?_⟩
   · intro i s hs ho
     rw [Outdated_eq g hwf, hs] at ho
     simp [h.2 i s hs] at ho
@@ -489,7 +512,8 @@ theorem untouched_run {g : Graph V} (hinv : Inv F g) {j : Nat} (hj : Outdated F 
     exact ⟨h2.1, by omega⟩
 
 /-- every node executed by a read is processed (not outdated) afterwards -/
-theorem executed_fresh {g : Graph V} (hinv : Inv F g) (i : Nat) (e : Nat × Nat) (he : e ∈ (Eval F g i).2) :
+theorem executed_fresh {g : Graph V} (hinv : Inv F g) (hra : ReadsAll g) (i : Nat) (e : Nat × Nat)
+    (he : e ∈ (Eval F g i).2) :
     Outdated F (Eval F g i).1 e.1 = false := by
   have hok := Eval_ok i g hinv
   obtain ⟨rank', hwf'⟩ := hok.inv.wf
@@ -498,7 +522,7 @@ theorem executed_fresh {g : Graph V} (hinv : Inv F g) (i : Nat) (e : Nat × Nat)
   | false => rfl
   | true =>
     have := Outdated_of_reach hwf' hr ho
-    rw [hok.fresh] at this
+    rw [hok.fresh hra] at this
     cases this
 
 theorem cnt_pos_mem {l : Log} {k : Nat} (h : 0 < cnt l k) : ∃ e ∈ l, e.1 = k := by
